@@ -550,6 +550,8 @@ class ILTTranslation:
         self.ds = {}
         self.ds_guard_omega1 = False
         self.ds_guard_degree = False
+        self.ds_guard_real = False
+        self.ds_guard_d2 = False
         self.ds_line = fn.lineno
         for k in (1, 2, 3):
             ev = Ev(F)
@@ -599,6 +601,13 @@ class ILTTranslation:
                 if len(s.body) == 1 and un(s.body[0]).startswith('warn(') and not s.orelse:
                     return None
                 fail(s, 'unexpected body', F)
+            if nz(t) in (nz('len(dcoeffs) < 3 or any(c.is_real is False for c in ncoeffs + dcoeffs)'), nz('len(dcoeffs) < 3 or dcoeffs[2] == 0 or any(c.is_real is False for c in ncoeffs + dcoeffs)')) and not s.orelse \
+                    and len(s.body) == 1 and nz(un(s.body[0])) == nz('return self.ratfun(expr.expr, s, t)'):
+                # not a real second-order section: handed back to the general path
+                self.ds_guard_degree = True
+                self.ds_guard_real = True
+                self.ds_guard_d2 = 'dcoeffs[2] == 0' in t
+                return None
             if t == 'len(dcoeffs) < 3' and not s.orelse and len(s.body) == 1 and nz(un(s.body[0])) == nz('return self.ratfun(expr.expr, s, t)'):
                 # denominator of degree < 2: handed back to the general path
                 self.ds_guard_degree = True
